@@ -4,6 +4,8 @@ import (
 	"fmt"
 
 	corev1 "k8s.io/api/core/v1"
+	netv1 "k8s.io/api/networking/v1"
+	metav1 "k8s.io/apimachinery/pkg/apis/meta/v1"
 
 	"github.com/np-guard/netpol-analyzer/pkg/netpol/internal/common"
 )
@@ -148,3 +150,37 @@ func ZZ_C01_TwoPolicies() {
 }
 
 var _ = common.NoPort
+
+// Two ipBlock peers of one policy sharing the same CIDR text with different excepts (two rules with
+// different ports): each rule applies its own excepts.
+func ZZ_C01_SharedCidrBlocks() {
+	g := zzBaseWorld(false, true)
+	cidr := g.Book.New("c")
+	c := g.Book.last()
+	mkBlock := func(name string) *netv1.IPBlock {
+		blk := &netv1.IPBlock{CIDR: cidr}
+		if vf_Choose(name+".nex", 2) == 1 {
+			ex := g.Book.New(name + ".ex")
+			vf_Assume(zzCidrInside(g.Book.last(), c))
+			blk.Except = []string{ex}
+		}
+		return blk
+	}
+	b1, b2 := mkBlock("b1"), mkBlock("b2")
+	p1, p2 := zzPortVar("p1"), zzPortVar("p2")
+	np := zzNetpolObj("ns1", "np1", netv1.NetworkPolicySpec{
+		PodSelector: metav1.LabelSelector{MatchLabels: map[string]string{"app": "a"}},
+	}).NetworkPolicy
+	r1 := netv1.NetworkPolicyIngressRule{From: []netv1.NetworkPolicyPeer{{IPBlock: b1}}, Ports: []netv1.NetworkPolicyPort{zzPortNum(corev1.ProtocolTCP, p1)}}
+	if vf_Choose("where", 2) == 0 {
+		r2 := netv1.NetworkPolicyIngressRule{From: []netv1.NetworkPolicyPeer{{IPBlock: b2}}, Ports: []netv1.NetworkPolicyPort{zzPortNum(corev1.ProtocolUDP, p2)}}
+		np.Spec.Ingress = []netv1.NetworkPolicyIngressRule{r1, r2}
+	} else {
+		np.Spec.Ingress = []netv1.NetworkPolicyIngressRule{r1}
+		np.Spec.Egress = []netv1.NetworkPolicyEgressRule{{To: []netv1.NetworkPolicyPeer{{IPBlock: b2}}, Ports: []netv1.NetworkPolicyPort{zzPortNum(corev1.ProtocolUDP, p2)}}}
+	}
+	g.addNP(np)
+	pe, err := NewPolicyEngineWithObjects(g.Objs)
+	vf_Assert(err == nil, "engine-built")
+	zzCheckAllPairs(g, pe, "list-matches-np-semantics")
+}
